@@ -161,6 +161,9 @@ def run(rep, F, ctx):
         rep.add('EXACT-LEN', 'exactlen:%s' % m, 'IteratorExt::%s does not derive a length from size_hint' % m, not bad, '%s:%d' % (B.file, B.line),
                 '' if not bad else 'IteratorExt::%s uses %s as the sequence length: wrong indices for iterators whose size hint is not exact (Filter, chars())' % (m, bad))
     suffix_guard(rep, F, cg)
+    import panics as _pn
+    _pn.no_panic_helpers(rep, F, cg, lambda n: n.startswith(('<T as core::iter::IteratorExt>::', '<str as core::string::', '<std::string::String as core::string::',
+                                                            '<std::option::Option<T> as core::option::', '<std::iter::Peekable<I> as core::', '<core::peekable::')))
     import primtable as _pt
     _pt.prim_table(rep, F, cg, engine.load_table('primitives.json'), _pt.GROUPS['C19'])
     import siteguard as _sg
